@@ -20,14 +20,14 @@ inductive Choice
 deriving Repr
 
 /-- the specification of transition selection -/
-def choose (truthy : Val → Bool) (act : CbId → Act) (ev : EventId) : List Transn → Choice
+def choose (m : Machine) (act : CbId → Act) (ev : EventId) : List Transn → Choice
   | [] => .notAllowed
   | tr :: rest =>
     if tr.events.contains ev then
       match firstRaise act tr.validators with
       | some x => .abort x
-      | none => if guardsPass truthy act tr.conds then .fire tr else choose truthy act ev rest
-    else choose truthy act ev rest
+      | none => if guardsPass m act tr.conds then .fire tr else choose m act ev rest
+    else choose m act ev rest
 
 /-- the action callbacks of `tr` under event `ev` -/
 def actionCbs (m : Machine) (ev : EventId) (tr : Transn) : List CbId :=
@@ -36,8 +36,8 @@ def actionCbs (m : Machine) (ev : EventId) (tr : Transn) : List CbId :=
 
 /-- what a fired transition returns (C14): `before` results then `on` results, unwrapped -/
 def firedResult (m : Machine) (act : CbId → Act) (ev : EventId) (tr : Transn) : Res :=
-  unwrap ((groupCbs m ev tr .before).map (fun cb => (act cb).ret) ++
-          (groupCbs m ev tr .on).map (fun cb => (act cb).ret))
+  unwrap ((groupCbs m ev tr .before).map (fun cb => rtcRet m (act cb)) ++
+          (groupCbs m ev tr .on).map (fun cb => rtcRet m (act cb)))
 
 theorem activatePre_same (m : Machine) (t : Trigger) (tr : Transn) : Resp Same (activatePre nestedRtc m t tr) :=
   activatePre_lift Same.lift m t tr fun ph _ _ cb _ => entryOk_true _ ph cb
@@ -69,7 +69,7 @@ theorem pre_abort (tr : Transn) (x : Nat) (hv : firstRaise act tr.validators = s
 
 theorem pre_reject (tr : Transn) (hv : firstRaise act tr.validators = none)
     (hg : ∀ p ∈ tr.conds, (act p.1).raises = none)
-    (hp : guardsPass m.truthy act tr.conds = false) (c : Cfg) :
+    (hp : guardsPass m act tr.conds = false) (c : Cfg) :
     (activatePre nestedRtc m t tr c).2 = .ok none := by
   unfold activatePre
   rw [bind_ok (runGroup_ok B _ rfl _ _ c hv)]
@@ -79,13 +79,13 @@ theorem pre_reject (tr : Transn) (hv : firstRaise act tr.validators = none)
 
 theorem pre_pass (tr : Transn) (hv : firstRaise act tr.validators = none)
     (hg : ∀ p ∈ tr.conds, (act p.1).raises = none)
-    (hp : guardsPass m.truthy act tr.conds = true)
+    (hp : guardsPass m act tr.conds = true)
     (hb : firstRaise act (applicable t.event tr.before) = none)
     (hx : firstRaise act (if tr.internal then [] else (stateDef m tr.source).exit) = none)
     (ho : firstRaise act (applicable t.event tr.on) = none) (c : Cfg) :
     (activatePre nestedRtc m t tr c).2 =
-      .ok (some (((applicable t.event tr.before).map fun cb => (act cb).ret) ++
-                 ((applicable t.event tr.on).map fun cb => (act cb).ret))) := by
+      .ok (some (((applicable t.event tr.before).map fun cb => rtcRet m (act cb)) ++
+                 ((applicable t.event tr.on).map fun cb => rtcRet m (act cb)))) := by
   unfold activatePre
   rw [bind_ok (runGroup_ok B _ rfl _ _ c hv)]
   rw [bind_ok (runConds_res B _ rfl _ hg _)]
@@ -119,7 +119,7 @@ theorem activate_abort (tr : Transn) (x : Nat) (hv : firstRaise act tr.validator
 /-- failing guards reject the candidate: no action runs, the state is unchanged -/
 theorem activate_reject (tr : Transn) (hv : firstRaise act tr.validators = none)
     (hg : ∀ p ∈ tr.conds, (act p.1).raises = none)
-    (hp : guardsPass m.truthy act tr.conds = false) (c : Cfg) :
+    (hp : guardsPass m act tr.conds = false) (c : Cfg) :
     (activate nestedRtc m t tr c).2 = .ok none ∧ (activate nestedRtc m t tr c).1.cur = c.cur := by
   unfold activate
   rw [bind_ok (pre_reject B tr hv hg hp c)]
@@ -128,7 +128,7 @@ theorem activate_reject (tr : Transn) (hv : firstRaise act tr.validators = none)
 /-- passing guards fire the transition: target state, documented result -/
 theorem activate_fire (tr : Transn) (hv : firstRaise act tr.validators = none)
     (hg : ∀ p ∈ tr.conds, (act p.1).raises = none)
-    (hp : guardsPass m.truthy act tr.conds = true)
+    (hp : guardsPass m act tr.conds = true)
     (ha : ∀ cb ∈ actionCbs m t.event tr, (act cb).raises = none) (c : Cfg) :
     (activate nestedRtc m t tr c).2 = .ok (some (firedResult m act t.event tr)) ∧
     (activate nestedRtc m t tr c).1.cur = some (stateVal m tr.target) := by
@@ -158,7 +158,7 @@ include B
 /-- **C01 (candidate loop).** The engine's candidate loop realises `choose`. -/
 theorem tryCands_choose (trs : List Transn)
     (hg : ∀ tr ∈ trs, ∀ p ∈ tr.conds, (act p.1).raises = none) (c : Cfg) :
-    match choose m.truthy act t.event trs with
+    match choose m act t.event trs with
     | .abort x => (tryCands nestedRtc m t trs c).2 = .error (.user x) ∧
                   (tryCands nestedRtc m t trs c).1.cur = c.cur
     | .notAllowed => (tryCands nestedRtc m t trs c).2 = .ok none ∧
@@ -183,13 +183,13 @@ theorem tryCands_choose (trs : List Transn)
         exact ⟨rfl, this.2⟩
       | none =>
         simp only
-        by_cases hp : guardsPass m.truthy act tr.conds = true
+        by_cases hp : guardsPass m act tr.conds = true
         · simp only [hp, if_true]
           intro ha
           have := activate_fire B tr hv hg0 hp ha c
           rw [bind_ok this.1]
           exact ⟨rfl, this.2⟩
-        · have hp' : guardsPass m.truthy act tr.conds = false := by simpa using hp
+        · have hp' : guardsPass m act tr.conds = false := by simpa using hp
           simp only [hp', Bool.false_eq_true, if_false]
           have := activate_reject B tr hv hg0 hp' c
           rw [bind_ok this.1]
@@ -212,7 +212,7 @@ not), every guard valuation and validator plan: with `s` the current state,
 theorem C01_trigger (hne : (t.event == initialEv) = false) (c : Cfg) (s : StateId)
     (hs : c.cur.bind (lookupState m) = some s)
     (hg : ∀ tr ∈ out m s, ∀ p ∈ tr.conds, (act p.1).raises = none) :
-    match choose m.truthy act t.event (out m s) with
+    match choose m act t.event (out m s) with
     | .abort x => (trigger nestedRtc m t c).2 = .error (.user x) ∧ (trigger nestedRtc m t c).1.cur = c.cur
     | .notAllowed =>
         (trigger nestedRtc m t c).2 =
@@ -225,7 +225,7 @@ theorem C01_trigger (hne : (t.event == initialEv) = false) (c : Cfg) (s : StateI
   unfold trigger
   rw [bind_ok (x := EM.get) (a := c) rfl]
   simp only [EM.get, hne, Bool.false_and, Bool.false_eq_true, if_false, hs]
-  cases hch : choose m.truthy act t.event (out m s) with
+  cases hch : choose m act t.event (out m s) with
   | abort x =>
     rw [hch] at key; simp only at key ⊢
     rw [bind_err key.1]; exact ⟨rfl, key.2⟩
@@ -246,12 +246,12 @@ end
 
 /-- `choose` fires the *first* enabled transition in declaration order: everything before it is
 either not bound to the event or has no raising validator and a failing guard. -/
-theorem choose_fire_first (truthy : Val → Bool) (act : CbId → Act) (ev : EventId) (trs : List Transn)
-    (tr : Transn) (h : choose truthy act ev trs = .fire tr) :
+theorem choose_fire_first (m : Machine) (act : CbId → Act) (ev : EventId) (trs : List Transn)
+    (tr : Transn) (h : choose m act ev trs = .fire tr) :
     ∃ pre post, trs = pre ++ tr :: post ∧ tr.events.contains ev = true ∧
-      firstRaise act tr.validators = none ∧ guardsPass truthy act tr.conds = true ∧
+      firstRaise act tr.validators = none ∧ guardsPass m act tr.conds = true ∧
       ∀ tr' ∈ pre, tr'.events.contains ev = false ∨
-        (firstRaise act tr'.validators = none ∧ guardsPass truthy act tr'.conds = false) := by
+        (firstRaise act tr'.validators = none ∧ guardsPass m act tr'.conds = false) := by
   induction trs with
   | nil => simp [choose] at h
   | cons a rest ih =>
@@ -262,7 +262,7 @@ theorem choose_fire_first (truthy : Val → Bool) (act : CbId → Act) (ev : Eve
       | some x => rw [hv] at h; simp at h
       | none =>
         rw [hv] at h; simp only at h
-        by_cases hp : guardsPass truthy act a.conds = true
+        by_cases hp : guardsPass m act a.conds = true
         · simp only [hp, if_true] at h
           injection h with h; subst h
           exact ⟨[], rest, rfl, hm, hv, hp, by simp⟩
@@ -321,7 +321,7 @@ theorem C01_drain_step {m : Machine} {act : Nat → CbId → Act} (B : BehT m ac
     (q : List Trigger) (hq : c.queue = t :: q) (hne : (t.event == initialEv) = false) (s : StateId)
     (hs : c.cur.bind (lookupState m) = some s)
     (hg : ∀ tr ∈ out m s, ∀ p ∈ tr.conds, (act t.tid p.1).raises = none) :
-    match choose m.truthy (act t.tid) t.event (out m s) with
+    match choose m (act t.tid) t.event (out m s) with
     | .abort _ => (drainStep m c).cur = c.cur ∧ (drainStep m c).queue = []
     | .notAllowed => (drainStep m c).cur = c.cur ∧ (m.allow = false → (drainStep m c).queue = [])
     | .fire tr => (∀ cb ∈ actionCbs m t.event tr, (act t.tid cb).raises = none) →
@@ -330,7 +330,7 @@ theorem C01_drain_step {m : Machine} {act : Nat → CbId → Act} (B : BehT m ac
   unfold drainStep
   rw [hq]
   simp only
-  cases hch : choose m.truthy (act t.tid) t.event (out m s) with
+  cases hch : choose m (act t.tid) t.event (out m s) with
   | abort x =>
     rw [hch] at key; simp only at key ⊢
     generalize trigger nestedRtc m t { c with queue := q } = r at key
@@ -367,7 +367,7 @@ theorem C01_every_event {m : Machine} {act : Nat → CbId → Act} (B : BehT m a
     let c := iter (drainStep m) n c0
     ∀ t q, c.queue = t :: q → (t.event == initialEv) = false → ∀ s, c.cur.bind (lookupState m) = some s →
       (∀ tr ∈ out m s, ∀ p ∈ tr.conds, (act t.tid p.1).raises = none) →
-      match choose m.truthy (act t.tid) t.event (out m s) with
+      match choose m (act t.tid) t.event (out m s) with
       | .abort _ => (iter (drainStep m) (n + 1) c0).cur = c.cur
       | .notAllowed => (iter (drainStep m) (n + 1) c0).cur = c.cur
       | .fire tr => (∀ cb ∈ actionCbs m t.event tr, (act t.tid cb).raises = none) →
@@ -380,7 +380,7 @@ theorem C01_every_event {m : Machine} {act : Nat → CbId → Act} (B : BehT m a
     | succ k ih => exact ih (drainStep m c0)
   rw [hstep]
   have key := C01_drain_step B c t q hq hne s hs hg
-  cases hch : choose m.truthy (act t.tid) t.event (out m s) with
+  cases hch : choose m (act t.tid) t.event (out m s) with
   | abort x => rw [hch] at key; exact key.1
   | notAllowed => rw [hch] at key; exact key.1
   | fire tr => rw [hch] at key; exact key
@@ -441,7 +441,7 @@ depth-first handler `sendNR m fuel` of `rtc=False` — when callbacks send no ev
 theorem C01_trigger_any_handler (h : Nested) (hne : (t.event == initialEv) = false) (c : Cfg) (s : StateId)
     (hcur : c.cur.bind (lookupState m) = some s)
     (hg : ∀ tr ∈ out m s, ∀ p ∈ tr.conds, (act p.1).raises = none) :
-    match choose m.truthy act t.event (out m s) with
+    match choose m act t.event (out m s) with
     | .abort x => (trigger h m t c).2 = .error (.user x) ∧ (trigger h m t c).1.cur = c.cur
     | .notAllowed =>
         (trigger h m t c).2 = (if m.allow then .ok (some .none) else .error (.notAllowed t.event s)) ∧
@@ -459,7 +459,7 @@ theorem C01_send_nonrtc {m : Machine} {act : CbId → Act} (fuel : Nat) (kind : 
     (hq : c.queue = []) (B : Beh m { tid := c.nextTid, event := ev } act) (hs : ∀ cb, (act cb).sends = [])
     (hne : (ev == initialEv) = false) (s : StateId) (hcur : c.cur.bind (lookupState m) = some s)
     (hg : ∀ tr ∈ out m s, ∀ p ∈ tr.conds, (act p.1).raises = none) :
-    match choose m.truthy act ev (out m s) with
+    match choose m act ev (out m s) with
     | .abort x => (send m { rtc := false, kind := kind } fuel ev c).2 = .error (.user x) ∧
                   (send m { rtc := false, kind := kind } fuel ev c).1.cur = c.cur
     | .notAllowed =>
@@ -476,7 +476,7 @@ theorem C01_send_nonrtc {m : Machine} {act : CbId → Act} (fuel : Nat) (kind : 
     simp [send, process, EM.bind_apply, enqueue, EM.modify, hq]
   rw [hsend]
   simp only [popTrigger]
-  cases hch : choose m.truthy act ev (out m s) with
+  cases hch : choose m act ev (out m s) with
   | abort x =>
     rw [hch] at key; simp only at key ⊢
     generalize trigger (sendNR m fuel) m _ _ = r at key
@@ -520,9 +520,9 @@ def exM : Machine :=
 
 example : BehT exM (fun _ => exAct) := fun _ _ _ _ _ => rfl
 example : ∀ cb, (exAct cb).sends = [] := fun _ => rfl
-example : (match choose exM.truthy exAct 5 (out exM 0) with | .fire tr => tr.target | _ => 99) = 2 := by decide
-example : (match choose exM.truthy exAct 6 (out exM 0) with | .fire tr => tr.target | _ => 99) = 2 := by decide
-example : (match choose exM.truthy exAct 7 (out exM 0) with | .notAllowed => 1 | _ => 0) = 1 := by decide
+example : (match choose exM exAct 5 (out exM 0) with | .fire tr => tr.target | _ => 99) = 2 := by decide
+example : (match choose exM exAct 6 (out exM 0) with | .fire tr => tr.target | _ => 99) = 2 := by decide
+example : (match choose exM exAct 7 (out exM 0) with | .notAllowed => 1 | _ => 0) = 1 := by decide
 /-- the engine on that machine: event 5 from state value 10 ends in state value 12 (both processing modes) -/
 example : (send exM { rtc := true } 5 5 { cur := some 10 }).1.cur = some 12 := by decide
 example : (send exM { rtc := false } 5 5 { cur := some 10 }).1.cur = some 12 := by decide
